@@ -270,6 +270,20 @@ def r5(ctx):
         okc = all(any(a[0] == "is" and a[1][0] == "call" and a[1][1].endswith("Try::branch") and a[1][2][0] == val[0][2] and a[2] == frozenset(["Continue"])
                       for a in conj) for conj in g)
         ctx.check("StateReplicaManager::run", okc, "and only happens when validation succeeded (`?`)", got=render_guard(g)[:300], key="validated-ok")
+        # once a record is admitted it is always applied: from the validation, every path to the next record or to
+        # the return passes update_from_event (except the `?` rejection of an out-of-sequence record)
+        rejected = set()
+        for x in run.reachable:
+            for conj in run.guard(x):
+                if any(a[0] == "is" and a[1][0] == "call" and a[1][1].endswith("Try::branch") and a[1][2][0] == val[0][2]
+                       and a[2] == frozenset(["Break"]) for a in conj):
+                    rejected.add(x)
+        heads = {x for x in run.reachable if run.blocks[x]["term"]["t"] == "false_unwind"}
+        nxt = {bi for bi, t, tm in calls if tm[1].endswith("Iterator::next") and render(tm[2][0]) == "self.updates"}
+        hit = _reach_avoiding(run, val[0][0], heads | nxt | {mir.EXIT}, {upd[0][0]} | rejected)
+        ctx.check("StateReplicaManager::run", not hit,
+                  "every admitted record is applied to the replica before the next record is read or the run ends "
+                  "(including the final / terminal record)", sites=[upd[0][1]["sp"]], got=sorted(hit), key="always-applied")
         gv = run.guard(val[0][0])
         # skip iff replica.seq >= tick.seq
         sk = []
